@@ -454,10 +454,11 @@ func (r *relay) header(
 	chunks := splitIntoChunks(int(maxHeaderFragmentLength), int(maxPayloadLength), encoded)
 
 	r.enqueueFrame(&queuedHeaderFrame{
-		streamID:  id,
-		endStream: streamEnded,
-		priority:  priority,
-		chunks:    chunks,
+		streamID:     id,
+		endStream:    streamEnded,
+		priority:     priority,
+		chunks:       chunks,
+		maxFrameSize: &r.maxFrameSize,
 	})
 	return nil
 }
@@ -487,9 +488,10 @@ func (r *relay) pushPromise(id, promiseID uint32, headers []hpack.HeaderField) e
 	chunks := splitIntoChunks(int(maxHeaderFragmentLength), int(maxPayloadLength), encoded)
 
 	r.enqueueFrame(&queuedPushPromiseFrame{
-		streamID:  id,
-		promiseID: promiseID,
-		chunks:    chunks,
+		streamID:     id,
+		promiseID:    promiseID,
+		chunks:       chunks,
+		maxFrameSize: &r.maxFrameSize,
 	})
 	return nil
 }
